@@ -41,7 +41,7 @@ func (v Value) MarshalJSON() ([]byte, error) {
 	switch v.K {
 	case "null", "echo", "absent":
 		p = 0
-	case "errs":
+	case "errs", "errsn":
 		p = v.I
 	case "str", "enum", "node", "err", "errval", "var", "num", "other", "float":
 		p = v.S
@@ -80,7 +80,7 @@ func (v *Value) UnmarshalJSON(b []byte) error {
 	v.K = raw.K
 	switch raw.K {
 	case "null", "echo", "absent":
-	case "errs":
+	case "errs", "errsn":
 		return json.Unmarshal(raw.V, &v.I)
 	case "str", "enum", "node", "err", "errval", "var", "num", "other", "float":
 		return json.Unmarshal(raw.V, &v.S)
